@@ -9,7 +9,10 @@ import (
 	"verif/internal/gen"
 )
 
-var strFrags = []string{"\\uD83D", "\\uDE00", "\\uDE0", "\\uD8", "\\uDC00", "\\u", "\\u1", "\\u12", "\\u123", "\\u0041", "\\x", "\\x4", "\\x41", "\\0", "\\08", "\\377", "\\400", "\\8", "\\", "\\\\", "\\\"", "\\'", "a", "\\n", "\n", "\\\n", "\\\r\n", "\\\u2028", "\u2028", "\u00e9", "\U0001F600", "\xff", "\x00", "\\v", "\\a", "\\u{41}", " "}
+var strFrags = []string{"\\uD83D", "\\uDE00", "\\uDE0", "\\uD8", "\\uDC00", "\\u", "\\u1", "\\u12", "\\u123", "\\u0041", "\\x", "\\x4", "\\x41", "\\0", "\\08", "\\377", "\\400", "\\8", "\\", "\\\\", "\\\"", "\\'", "a", "\\n", "\n", "\\\n", "\\\r\n", "\\\u2028", "\u2028", "\u00e9", "\U0001F600", "\xff", "\x00", "\\v", "\\a", "\\u{41}", " ",
+	// an escape of a surrogate code unit directly followed by an incomplete or foreign escape (the
+	// pair-joining code looks ahead across the escape boundary)
+	"\\uD83D\\u", "\\uDC00\\uD8", "\\uD83D\\uDE0", "\\uD83D\\x4", "\\uDBFF\\", "\\uD83D\\u{1F600}", "\\uD83D\\uD83D\\uDE00"}
 var reFrags = []string{"[", "]", "\\/", "/", "(", ")", "(?:", "(?=", "(?!", "(?<", "(?P<n>", "{", "}", "{1", "{1,", "{1,2}", "{2,1}", "*", "+", "?", "|", "\\u00", "\\uD83D", "\\uDE0", "\\x4", "\\c", "\\cA", "\\1", "\\9", "\\b", "\\B", "\\d", "\\k<", ".", "^", "$", "a-", "-a", "\\\\", "\\", "[^", "[]", "[^]", "\n", "\u2028", "\xff", "a"}
 var numFrags = []string{"0x", "0X1g", "1e", ".e1", "1.e+", "09", "08.5", "0.0.", "1_0", "0b1", "0o7", "1n", ".", "..1", "1", "0", "e", "E-", "x", "9007199254740993", "1e400", "0x1fffffffffffffffff", "00", "07", "078", "1.", ".5", "+", "-"}
 
